@@ -11,6 +11,8 @@
 From Coq Require Import QArith Qminmax.
 From Verif Require Import Prelude Model.Roadm.
 From Verif Require Proofs.Roadm.
+From Verif Require Import Gen.RoadmGen.
+From Verif Require Proofs.RoadmGen.
 Open Scope Q_scope.
 
 (* ---- each channel leaves with min(target + offset, input power - path loss) *)
@@ -326,3 +328,81 @@ Example ex_internal_paths :
           mkCall 9 2 Add None; mkCall 9 3 Add (Some 1%Z)] /\
   (exists e, internal_paths [mkProf 1 Add []] [mkPdi 1 9 1] [1]%Z [2]%Z [9]%Z [9]%Z = Err e).
 Proof. split; [vm_compute; reflexivity | eexists; vm_compute; reflexivity]. Qed.
+
+(* ================= translator tie: what /repo's source says today IS the model (Gen/RoadmGen.v is regenerated from
+   the source on every run by harness/pygen_c06.py; these theorems are re-checked against it) ================= *)
+(* Roadm.propagate: per-carrier equalisation arithmetic, reference channel, reports, PMD / PDL quadrature sums *)
+Theorem C06_source_delta_power : forall tgt ml c, g_delta_power tgt ml c = delta_power tgt ml c.
+Proof. exact Proofs.RoadmGen.gen_delta_power. Qed.
+Print Assumptions C06_source_delta_power.
+
+Theorem C06_source_equalize : forall pl cm, g_equalize pl cm = equalize pl cm.
+Proof. exact Proofs.RoadmGen.gen_equalize. Qed.
+Print Assumptions C06_source_equalize.
+
+Theorem C06_source_propagate_reports : forall r deg from l o,
+  propagate_power r deg from l = Ok o ->
+  exists pl mls mx rin rtg,
+    resolve r deg = Some pl /\ path_maxloss r from deg l = Ok (mls, mx) /\ zfind from (refin r) = Some rin /\
+    ref_target r deg = Ok (Some rtg) /\
+    o_chans o = map (g_equalize pl) (combine l mls) /\
+    o_ref_out o = g_ref_out rin mx rtg /\ o_ref_loss o = g_ref_loss rin (o_ref_out o) /\
+    o_loss o = map (fun cc => g_loss (fst cc) (snd cc)) (combine l (o_chans o)).
+Proof. exact Proofs.RoadmGen.gen_reports. Qed.
+Print Assumptions C06_source_propagate_reports.
+
+Theorem C06_source_pmd_pdl : forall c a b,
+  cpmd2 (add_pol c a b) = g_pmd2 c a /\ cpdl2 (add_pol c a b) = g_pdl2 c b /\ cp (add_pol c a b) = cp c.
+Proof. exact Proofs.RoadmGen.gen_pol. Qed.
+Print Assumptions C06_source_pmd_pdl.
+
+(* get_per_degree_power / get_per_degree_ref_power / get_roadm_target_power: order of the tables, kind of each target *)
+Theorem C06_source_resolve : forall r deg, g_resolve r deg = resolve r deg /\ g_resolve_ref r deg = resolve r deg.
+Proof. exact Proofs.RoadmGen.gen_resolve. Qed.
+Print Assumptions C06_source_resolve.
+
+Theorem C06_source_node_policy : forall r, g_node r = node_policy r /\ g_node_ref r = node_policy r.
+Proof. exact Proofs.RoadmGen.gen_node. Qed.
+Print Assumptions C06_source_node_policy.
+
+(* get_impairment: band test and per-key defaults *)
+Theorem C06_source_in_band : forall b f, g_in_band b f = in_band b f.
+Proof. exact Proofs.RoadmGen.gen_in_band. Qed.
+Print Assumptions C06_source_in_band.
+
+Theorem C06_source_item_val : forall b,
+  g_item_val g_default_maxloss (bml b) = band_val b /\
+  g_item_val g_default_pmd (bpmd b) = kv_val (bpmd b) /\ g_item_val g_default_pdl (bpdl b) = kv_val (bpdl b).
+Proof. exact Proofs.RoadmGen.gen_item_val. Qed.
+Print Assumptions C06_source_item_val.
+
+(* set_roadm_per_degree_targets *)
+Theorem C06_source_set_targets : forall next r, g_set_targets r next = set_targets r next.
+Proof. exact Proofs.RoadmGen.gen_set_targets. Qed.
+Print Assumptions C06_source_set_targets.
+
+(* set_roadm_internal_paths: look-up keys and demanded path types *)
+Theorem C06_source_internal_paths : forall profs pdis prev next drops adds calls,
+  internal_paths profs pdis prev next drops adds = Ok calls ->
+  let d := pdi_dict pdis in
+  (forall from to, In from prev -> In to next ->
+     In (mkCall from to Express (pdi_find d (fst (g_express_key from to)) (snd (g_express_key from to)))) calls) /\
+  (forall from dr, In from prev -> In dr drops ->
+     In (mkCall from dr g_drop_want (pdi_find d (fst (g_drop_key from dr)) (snd (g_drop_key from dr)))) calls) /\
+  (forall ad to, In ad adds -> In to next ->
+     In (mkCall ad to g_add_want (pdi_find d (fst (g_add_key ad to)) (snd (g_add_key ad to)))) calls).
+Proof. exact Proofs.RoadmGen.gen_internal_paths. Qed.
+Print Assumptions C06_source_internal_paths.
+
+(* RoadmParams / json_io.Roadm / find_equalisation + merge_equalization *)
+Theorem C06_source_roadm_params : forall k, g_roadm_params k = roadm_params k.
+Proof. exact Proofs.RoadmGen.gen_roadm_params. Qed.
+Print Assumptions C06_source_roadm_params.
+
+Theorem C06_source_eqpt_check : forall e, g_eqpt_check e = eqpt_check e.
+Proof. exact Proofs.RoadmGen.gen_eqpt_check. Qed.
+Print Assumptions C06_source_eqpt_check.
+
+Theorem C06_source_merge_policy : forall el eq, g_merge_policy el eq = merge_policy el eq.
+Proof. exact Proofs.RoadmGen.gen_merge_policy. Qed.
+Print Assumptions C06_source_merge_policy.
